@@ -130,6 +130,9 @@ def main():
         params = json.loads(out.strip().split("\n")[-1])["params"]
 
     mod = importlib.import_module(pid.lower())
+    if not args.replay:
+        for old in glob.glob(os.path.join(VERIF, "replays", f"{pid}-{args.seed}-*.json")):
+            os.remove(old)
 
     # 2./3. proofs
     proof = build_and_audit(pid, mod)
